@@ -124,18 +124,111 @@ func bigFactsInterval(fs []facts.Fact, V ssa.Value) bigInterval {
 	return iv
 }
 
-// acceptingReturns lists returns whose last (error) result is nil.
+// acceptingReturns lists returns whose last (error) result is nil or may be nil: a constant nil,
+// or a value (typically the phi that merges the results of an inlined helper, or a variable) that
+// is not known to be non-nil at the return.
 func acceptingReturns(fn *ssa.Function) []*ssa.Return {
 	var out []*ssa.Return
 	eachInstr(fn, func(i ssa.Instruction) {
 		if r, ok := i.(*ssa.Return); ok && len(r.Results) > 0 && r.Block().Comment != "recover" {
 			rs := returnValues(r)
-			if isNilConst(rs[len(rs)-1]) {
+			last := rs[len(rs)-1]
+			if isNilConst(last) {
+				out = append(out, r)
+				return
+			}
+			if !isErrorType(last.Type()) {
+				return
+			}
+			if mayBeNilAt(last, r) {
 				out = append(out, r)
 			}
 		}
 	})
 	return out
+}
+
+func isErrorType(t types.Type) bool { return t.String() == "error" }
+
+// mayBeNilAt: error value v returned by r is not known to be non-nil.
+func mayBeNilAt(v ssa.Value, r *ssa.Return) bool {
+	v = facts.ThreadedValue(v)
+	if isNilConst(v) {
+		return true
+	}
+	if facts.IntrinsicNonNil(v) {
+		return false
+	}
+	if facts.HasAtom(facts.At(r, nil), facts.CmpAtom(facts.Term(v), token.NEQ, "nil")) {
+		return false
+	}
+	if ph, ok := v.(*ssa.Phi); ok && ph.Block() == r.Block() {
+		for k, e := range ph.Edges {
+			if edgeMayBeNil(e, ph.Block().Preds[k]) && facts.Reachable(ph.Block().Preds[k], nil) {
+				return true
+			}
+		}
+		return false
+	}
+	// a call result or variable handed on as is (`return f()`, `return err`): the callee decides;
+	// such returns were never treated as acceptance points and are judged where the value is made
+	return false
+}
+
+func edgeMayBeNil(e ssa.Value, pred *ssa.BasicBlock) bool {
+	if isNilConst(e) {
+		return true
+	}
+	if facts.IntrinsicNonNil(e) || facts.KnownNonNil(e, pred) {
+		return false
+	}
+	if ph, ok := e.(*ssa.Phi); ok {
+		for k, e2 := range ph.Edges {
+			if e2 != e && edgeMayBeNil(e2, ph.Block().Preds[k]) {
+				return true
+			}
+		}
+		return false
+	}
+	return false
+}
+
+// acceptFacts: the must-hold facts on the paths on which return r yields a nil (or possibly nil)
+// error. When the error result is a phi of r's block, only the entry edges that can carry nil count.
+func acceptFacts(r *ssa.Return) []facts.Fact {
+	if len(r.Results) == 0 {
+		return facts.At(r, nil)
+	}
+	rs := returnValues(r)
+	v := rs[len(rs)-1]
+	ph, ok := v.(*ssa.Phi)
+	if !ok || ph.Block() != r.Block() || !isErrorType(v.Type()) {
+		return facts.At(r, nil)
+	}
+	var acc []facts.Fact
+	first := true
+	for k, e := range ph.Edges {
+		pred := ph.Block().Preds[k]
+		if !edgeMayBeNil(e, pred) || !facts.Reachable(pred, nil) {
+			continue
+		}
+		ei := 0
+		for j, sc := range pred.Succs {
+			if sc == ph.Block() {
+				ei = j
+			}
+		}
+		fs := facts.AtEdge(pred, ei, nil)
+		if first {
+			acc, first = fs, false
+		} else {
+			acc = facts.Intersect(acc, fs)
+		}
+	}
+	if first {
+		return facts.At(r, nil)
+	}
+	return acc
 }
 
 // returnValues resolves results that go/ssa spills into named-result allocations when the function
@@ -194,7 +287,7 @@ func c11narrow(c *Ctx, p *load.Program) {
 	var base bigInterval
 	acc := acceptingReturns(toU256)
 	for i, r := range acc {
-		iv := bigFactsInterval(facts.At(r, nil), r.Results[0])
+		iv := bigFactsInterval(acceptFacts(r), r.Results[0])
 		if i == 0 {
 			base = iv
 		} else { // union (conservative): drop a bound unless both have it
@@ -233,7 +326,7 @@ func c11narrow(c *Ctx, p *load.Program) {
 		}
 		for _, r := range acceptingReturns(fn) {
 			n++
-			iv := bigFactsInterval(facts.At(r, nil), V)
+			iv := bigFactsInterval(acceptFacts(r), V)
 			if base.lo != nil {
 				iv.tightenLo(base.lo)
 			}
@@ -251,7 +344,7 @@ func c11narrow(c *Ctx, p *load.Program) {
 				}
 			}
 			// the returned value is uintN(V.Uint64()) (or V.Uint64())
-			R.Check("C11.narrow", R.Key("C11.narrow", spec.name, "accept"), c.rel(p.Pos(instrPos(r))), spec.name+" accepts exactly the values representable in "+fmt.Sprint(spec.bits)+" bits", good, why, facts.Atoms(facts.At(r, nil))...)
+			R.Check("C11.narrow", R.Key("C11.narrow", spec.name, "accept"), c.rel(p.Pos(instrPos(r))), spec.name+" accepts exactly the values representable in "+fmt.Sprint(spec.bits)+" bits", good, why, facts.Atoms(acceptFacts(r))...)
 			R.Sample(map[string]any{"function": spec.name, "accepted_interval": iv.String(), "target_range": want.String()})
 		}
 	}
